@@ -224,8 +224,10 @@ def compare_program(pairs, checker, col=None):
             if diag == (not exp):
                 continue
             direction = "rejects member" if diag else "accepts non-member"
+            # key by the innermost disagreeing component (as the API route does), so that one root cause has one key
+            lo, lt = localize(o, t, direction)
             fails.append({
-                "key": f"prog-{route}|{direction}|{'tuple-star' if '*tuple[' in tsrc else ctor(t)}|{detail(o, t)}",
+                "key": f"prog-{route}|{direction}|{'tuple-star' if '*tuple[' in tsrc else ctor(lt)}|{detail(lo, lt)}",
                 "what": f"`{'x: ' + tsrc + ' = ' + osrc if route == 'assign' else 'takes(' + osrc + ')  # p: ' + tsrc}` "
                         f"is {'diagnosed' if diag else 'not diagnosed'}, membership model says member={exp}",
                 "case": {"route": "program", "obj": osrc, "type": tsrc},
@@ -275,10 +277,17 @@ def pair_strategy(draw):
 LITERAL_OBJS = [o.src for o in UNIVERSE if o.literal and o.kind in ("scalar", "enum", "container")]
 
 
+def nested_types():
+    """Homogeneous containers of homogeneous containers (depth 3, element-wise expansion twice)."""
+    inner = ["list[{0}]", "dict[str, {0}]", "set[{0}]", "tuple[{0}, ...]", "Sequence[{0}]"]
+    outer = ["list[{0}]", "tuple[{0}, ...]", "Sequence[{0}]", "Iterable[{0}]", "dict[int, {0}]", "tuple[{0}, {0}]", "Optional[list[{0}]]"]
+    return [o.format(i.format(x)) for o in outer for i in inner for x in ("int", "float", "bool", "str", "object")]
+
+
 def all_types(tier):
     d1 = universe.types_depth1()
     d2 = [t for t in universe.types_depth2() if universe.valid_type_src(t)]
-    return d1 + d2
+    return d1 + d2 + [t for t in nested_types() if universe.valid_type_src(t)]
 
 
 def shards(tier, seed):
@@ -311,7 +320,8 @@ def run_shard(spec):
                 break
         col.extra["exhaustive"] = not col.budget_hit
         col.extra["exhaustive_types"] = len(mine)
-        col.extra["exhaustive_bounds"] = ["universe x all type expressions of constructor depth <= 2 (pv/universe.py)"]
+        col.extra["exhaustive_bounds"] = ["universe x all type expressions of constructor depth <= 2 (pv/universe.py)",
+                                          "universe x homogeneous containers of homogeneous containers over int/float/bool/str/object"]
         col.sample({"obj": UNIVERSE[spec["index"] % len(UNIVERSE)].src, "type": mine[len(mine) // 2]})
         return col.result()
 
